@@ -25,7 +25,7 @@ for sid in ids:
     for p in props:
         if not any(p==k for k in json.load(open(f"{C}/obligations.json"))):
             det.append({"check":p,"verdict":"no check registered"}); continue
-        r=sh(f"cd {C} && ./check {p}", timeout=1800)
+        r=sh(f"cd {C} && timeout 600 ./check {p}", timeout=700)
         lines=[l for l in r.stdout.split("\n") if l.startswith("VIOLATION") or l.startswith("BROKEN") or l.startswith("  MONFAIL") or l.startswith("  correspondence") or l.startswith("  the ")]
         v=[l for l in r.stdout.split("\n") if l.startswith("VIOLATION")]
         if r.returncode==1 and v:
